@@ -21,7 +21,7 @@ N = int(sys.argv[1]) if len(sys.argv) > 1 else 150
 rng = random.Random(int(sys.argv[2]) if len(sys.argv) > 2 else 0)
 
 ERR = {"ZeroDivisionError": "ZeroDivisionError", "DivisionByZero": "DivisionByZero", "InvalidOperation": "InvalidOperation",
-       "AssertionError": "AssertionError", "KeyError": "KeyError"}
+       "AssertionError": "AssertionError", "KeyError": "KeyError", "ValueError": "ValueError", "TypeError": "TypeError"}
 
 
 def li(n):           # Lean Int literal
@@ -135,14 +135,63 @@ for _ in range(N):
     case("asset_sub", f"asset_sub NumCtx.py {lr(bal)} {lr(amt2)} {'true' if allow else 'false'}", "shR", asset_sub)
     case("asset_add", f"asset_add NumCtx.py {lr(bal)} {lr(amt2)}", "shR", asset_add)
 
-HEAD = """import Demeter.Gen.PyBrokerTyping
+    # ---- time triggers (times = whole seconds from a midnight epoch)
+    from datetime import datetime, timedelta
+    from types import SimpleNamespace
+    import demeter.strategy.trigger as tr
+    EP = datetime(2023, 5, 1)
+    T = lambda sec: EP + timedelta(seconds=sec)        # noqa: E731
+    SEC = lambda dt: int((dt - EP).total_seconds())    # noqa: E731
+    snap_t = 60 * rng.randint(0, 3000)
+    snap = SimpleNamespace(timestamp=T(snap_t))
+    t0 = rng.choice([snap_t, snap_t + 60 * rng.randint(-50, 50), snap_t + rng.randint(-3000, 3000)])
+    case("to_minute", f"trig_to_minute {li(t0)}", "shI", lambda: SEC(tr.to_minute(T(t0))))
+    dl = rng.choice([60, 120, 90, 0, -60, 3600, 61, rng.randint(-100, 4000)])
+
+    def chk():
+        tr._check_time_delta(timedelta(seconds=dl))
+        return 0
+    case("check_delta", f"(trig_check_time_delta {li(dl)}).map (fun _ => (0 : Int))", "shI", chk)
+    tm = [60 * (snap_t // 60 + rng.randint(-5, 5)) for _ in range(rng.randint(0, 4))]
+    lts = "[" + ", ".join(li(x) for x in tm) + "]"
+
+    def mk(cls, **fields):
+        o = cls.__new__(cls)
+        o.__dict__.update(fields)
+        return o
+    case("at_time_when", f"(trig_at_time_when {li(snap_t)} {li(60 * (t0 // 60))}).map (fun b => if b then (1 : Int) else 0)", "shI",
+         lambda: int(mk(tr.AtTimeTrigger, _time=T(60 * (t0 // 60))).when(snap)))
+    case("at_times_when", f"(trig_at_times_when {li(snap_t)} {lts}).map (fun b => if b then (1 : Int) else 0)", "shI",
+         lambda: int(mk(tr.AtTimesTrigger, _time=[T(x) for x in tm]).when(snap)))
+    case("at_times_out", f"(trig_at_times_is_out_date {lts} {li(snap_t)}).map (fun b => if b then (1 : Int) else 0)", "shI",
+         lambda: int(mk(tr.AtTimesTrigger, _time=[T(x) for x in tm]).is_out_date(T(snap_t))))
+    rs_ = [(60 * (snap_t // 60 + rng.randint(-6, 3)), 60 * (snap_t // 60 + rng.randint(-3, 6))) for _ in range(rng.randint(0, 3))]
+    lrs = "[" + ", ".join(f"({li(a_)}, {li(b_)})" for a_, b_ in rs_) + "]"
+    case("ranges_when", f"(trig_ranges_when {li(snap_t)} {lrs}).map (fun b => if b then (1 : Int) else 0)", "shI",
+         lambda: int(mk(tr.TimeRangesTrigger, _time_range=[tr.TimeRange(T(a_), T(b_)) for a_, b_ in rs_]).when(snap)))
+    case("ranges_out", f"(trig_ranges_is_out_date {lrs} {li(snap_t)}).map (fun b => if b then (1 : Int) else 0)", "shI",
+         lambda: int(mk(tr.TimeRangesTrigger, _time_range=[tr.TimeRange(T(a_), T(b_)) for a_, b_ in rs_]).is_out_date(T(snap_t))))
+    pd_, pend_, imm_ = 60 * rng.randint(1, 9), 60 * rng.choice([0, 0, 1, 7]), rng.random() < 0.5
+    nxt = rng.choice([None, snap_t, snap_t - pd_ * rng.randint(0, 6), snap_t + 60 * rng.randint(-30, 30), snap_t - 60 * rng.randint(0, 200)])
+
+    def period_when():
+        o = mk(tr.PeriodTrigger, _next_match=None if nxt is None else T(nxt), _delta=timedelta(seconds=pd_), _pending=timedelta(seconds=pend_),
+               _trigger_immediately=imm_)
+        r = o.when(snap)
+        return int(r) * 10 ** 9 + (SEC(o._next_match) if o._next_match is not None else -1)
+    lnx = "none" if nxt is None else f"(some {li(nxt)})"
+    case("period_when", f"(trig_period_when 100000 {li(snap_t)} {li(pd_)} {li(pend_)} {'true' if imm_ else 'false'} {lnx}).map "
+                        f"(fun r => (if r.1 then (1000000000 : Int) else 0) + (match r.2 with | some x => x | none => -1))", "shI", period_when)
+
+HEAD = """import Demeter.Gen.PyTrigger
+import Demeter.Gen.PyBrokerTyping
 import Demeter.Gen.PyLiquitidyMath
 import Demeter.Gen.PyAaveCore
 import Demeter.Gen.PyDeribitMarket
 open Demeter Demeter.Py
 def shErr : Err → String
   | .ZeroDivisionError => "ZeroDivisionError" | .DivisionByZero => "DivisionByZero" | .InvalidOperation => "InvalidOperation"
-  | .AssertionError => "AssertionError" | .KeyError => "KeyError" | .ValueError => "ValueError"
+  | .AssertionError => "AssertionError" | .KeyError => "KeyError" | .ValueError => "ValueError" | .TypeError => "TypeError"
   | .Raised c => c | .Unsupported w => "Unsupported:" ++ w
 def rs (v : Rat) : String := s!"{v.num}/{v.den}"
 def shI : Except Err Int → String | .ok v => s!"ok {v}" | .error e => "err " ++ shErr e
